@@ -215,6 +215,14 @@ impl<R> Archive<R> {
                 }
             })
             .collect::<Result<Vec<usize>, ArchiveError<R::Error>>>()?;
+        // The source is what its chunks add up to, the size given for it is used
+        // to check and to size the output before any chunk has been seen.
+        let size_of_chunks = source_order.iter().try_fold(0u64, |size, &index| {
+            size.checked_add(u64::from(archive_chunks[index].source_size))
+        });
+        if size_of_chunks != Some(dictionary.source_total_size) {
+            return Err(ArchiveError::invalid_archive("invalid source size"));
+        }
         Ok(Self {
             reader,
             archive_chunks,
